@@ -173,7 +173,12 @@ func c11BigRoundTrip(t *testing.T, n, k, c int) (desc string) {
 // c11Hostile: between two ordinary Set calls the store is handed a silence it may refuse (text that is not UTF-8 in a
 // field the API caller controls, or odd but valid text). Whatever Set answers, the snapshots that follow must be written
 // and the next start must load exactly the store as it was in memory; a refused call must have changed nothing.
-var c11HostileKinds = []string{"comment not UTF-8", "creator not UTF-8", "matcher value not UTF-8", "matcher name not UTF-8", "annotation value not UTF-8", "annotation key not UTF-8", "NUL and control bytes in comment, creator and matcher value"}
+var c11HostileKinds = []string{"comment not UTF-8", "creator not UTF-8", "matcher value not UTF-8", "matcher name not UTF-8", "annotation value not UTF-8", "annotation key not UTF-8", "NUL and control bytes in comment, creator and matcher value",
+	"a range that is already over when the silence is created (end one minute ago)",
+	"learned by gossip: end before start",
+	"learned by gossip: no matchers at all",
+	"learned by gossip: a label name only the UTF-8 matcher mode knows",
+	"learned by gossip: empty creator and comment, zero start"}
 
 func c11Hostile(t *testing.T, kind, when int) (desc string) {
 	synctest.Test(t, func(t *testing.T) {
@@ -224,9 +229,34 @@ func c11Hostile(t *testing.T, kind, when int) (desc string) {
 		case 6:
 			h.Comment, h.CreatedBy = "a\x00b\x01", "\x7f\x00"
 			h.MatcherSets[0].Matchers[0].Pattern = "v\x00\n"
+		case 7:
+			h.StartsAt, h.EndsAt = ts(now.Add(-2*time.Hour)), ts(now.Add(-time.Minute))
 		}
 		before := c11Dump(s)
-		serr := s.Set(ctx, h)
+		var serr error
+		if kind >= 8 {
+			// What another instance gossips is merged without the local validation (the peer may run another version or
+			// another matcher mode): whatever the store takes in, it must be able to write out and load again.
+			h.Id = fmt.Sprintf("00000000-0000-4000-8000-%012d", kind)
+			h.UpdatedAt = ts(now)
+			switch kind {
+			case 8:
+				h.StartsAt, h.EndsAt = ts(now.Add(time.Hour)), ts(now.Add(time.Minute))
+			case 9:
+				h.MatcherSets = nil
+			case 10:
+				h.MatcherSets[0].Matchers[0].Name = "host name\u00e9"
+			case 11:
+				h.CreatedBy, h.Comment, h.StartsAt = "", "", nil
+			}
+			b, err := vMarshalMesh(&pb.MeshSilence{Silence: h, ExpiresAt: ts(now.Add(2 * time.Hour))})
+			if err != nil {
+				panic(err)
+			}
+			serr = s.Merge(b)
+		} else {
+			serr = s.Set(ctx, h)
+		}
 		if serr != nil && c11Dump(s) != before {
 			desc = fmt.Sprintf("Set refused the silence (%v) but the store changed", serr)
 			return
